@@ -13,6 +13,7 @@ Oracle: the property statement evaluated in Python on the same before/after cont
 import contextlib
 import io
 import json
+import time
 import multiprocessing
 import os
 import shutil
@@ -27,7 +28,11 @@ LEVEL_TEXT = ('Theorems for all cache contents (lists of tiles with arbitrary in
               'directories that are not tiles), all level selections, remove_before / remove_all, all backends of the model and '
               'all coverages (abstract predicate on meta tiles): what each strategy leaves equals the specification; tied to '
               'mapproxy/seed/cleanup.py, util/fs.py and the backends by running the real cleanup on real caches.')
-LEVEL_NOTE = ('Trusted: Coq kernel, the hand-written model Cleanup.v, the harness.  The pyramid descent of TileWalker._walk is '
+LEVEL_NOTE = ('Streams: single tasks (all backends, bbox and polygon coverages, linked single-colour tiles, a file that another '
+              'process removes during the directory walk, sqlite backends under the time zones EST5 / XXX-2 / XXX-5:30), several '
+              'tasks per cleanup() call, directory cleanup with a real ProgressStore interrupted at a level boundary and continued, '
+              'levels ranges and remove_all/remove_before of the real configuration loader.  '
+              'Trusted: Coq kernel, the hand-written model Cleanup.v, the harness.  The pyramid descent of TileWalker._walk is '
               'not modelled here (C11): the tile-walk theorems carry the hypothesis that the walk processes exactly the meta '
               'tiles of the selected levels that intersect the coverage; that hypothesis is checked by Coq on every walk the '
               'real TileWalker performed in the correspondence run.  Time is modelled in integer ticks (4 per second in the '
@@ -170,17 +175,37 @@ def png_bytes():
     if PNG is None:
         from PIL import Image
         buf = io.BytesIO()
-        Image.new('RGB', (4, 4), (10, 200, 30)).save(buf, 'png')
+        img = Image.new('RGB', (4, 4), (10, 200, 30))
+        img.putpixel((1, 1), (200, 10, 30))        # two colours: never stored as a single-colour link
+        img.save(buf, 'png')
         PNG = buf.getvalue()
     return PNG
 
 
+COLOURS = [(255, 0, 0), (0, 255, 0), (0, 0, 255)]
+
+
+def task_boxes(t):
+    """coverage of a task as list of boxes (one: BBOXCoverage, several: polygon = their union)."""
+    return [list(c) for c in t['covs']] if t.get('covs') else [list(t['cov'])]
+
+
+def make_coverage(t, srs):
+    from mapproxy.util.coverage import BBOXCoverage, GeomCoverage
+    boxes = task_boxes(t)
+    if len(boxes) == 1:
+        return BBOXCoverage(boxes[0], srs)
+    import shapely.geometry
+    import shapely.ops
+    return GeomCoverage(shapely.ops.unary_union([shapely.geometry.box(*c) for c in boxes]), srs)
+
+
 # ------------------------------------------------------------------------------------------------ real caches
 
-def make_cache(b, cache_dir, grid):
+def make_cache(b, cache_dir, grid, link=False):
     if b.startswith('file:'):
         from mapproxy.cache.file import FileCache
-        return FileCache(cache_dir, 'png', directory_layout=b.split(':')[1])
+        return FileCache(cache_dir, 'png', directory_layout=b.split(':')[1], link_single_color_images=link)
     if b.startswith('mbtiles'):
         from mapproxy.cache.mbtiles import MBTilesCache
         return MBTilesCache(os.path.join(cache_dir, 'c.mbtiles'), with_timestamps=(b == 'mbtiles:ts'))
@@ -211,6 +236,8 @@ def entry_path(cache_dir, e):
         return os.path.join(cache_dir, '%d.mbtile-x%d' % (e['l'], e['n']))
     if k == 'outside':
         return os.path.join(cache_dir, 'outside_%d.txt' % e['n'])
+    if k == 'colour':
+        return os.path.join(cache_dir, 'single_color_tiles', '%02x%02x%02x.png' % COLOURS[e['k']])
     raise ValueError(k)
 
 
@@ -238,7 +265,8 @@ def fill(case, cache_dir, grid):
     from mapproxy.image import ImageSource
     b = case['backend']
     os.makedirs(cache_dir, exist_ok=True)
-    cache = make_cache(b, cache_dir, grid)
+    link = any(e.get('link') is not None for e in case['entries'])
+    cache = make_cache(b, cache_dir, grid, link)
     paths = []
     for e in case['entries']:
         if e['kind'] != 'tile':
@@ -246,12 +274,19 @@ def fill(case, cache_dir, grid):
             continue
         coord = (e['x'], e['y'], e['l'])
         t = Tile(coord)
-        t.source = ImageSource(io.BytesIO(png_bytes()))
+        if e.get('link') is not None:
+            from PIL import Image
+            from mapproxy.image.opts import ImageOptions
+            t.source = ImageSource(Image.new('RGB', (4, 4), COLOURS[e['link']]), image_opts=ImageOptions(format='image/png'))
+        else:
+            t.source = ImageSource(io.BytesIO(png_bytes()))
         dims = DIMS[e['dim']]
         if not cache.store_tile(t, dimensions=dims) and not b.startswith('file:'):
             raise RuntimeError('store_tile failed for %r on %s' % (coord, b))
         if b.startswith('file:'):
             loc = cache.tile_location(Tile(coord), dimensions=dims)
+            if (e.get('link') is not None) != os.path.islink(loc):
+                raise RuntimeError('expected %s to be a %s' % (loc, 'link' if e.get('link') is not None else 'file'))
             set_mtime(loc, e['t'])
             paths.append(loc)
         else:
@@ -268,7 +303,9 @@ def fill(case, cache_dir, grid):
         if e['kind'] == 'tile':
             continue
         p = entry_path(cache_dir, e)
-        if e.get('isdir'):
+        if e['kind'] == 'colour':
+            set_mtime(p, e['t'])      # the shared file the links point to (written by store_tile)
+        elif e.get('isdir'):
             os.makedirs(p)
         else:
             os.makedirs(os.path.dirname(p), exist_ok=True)
@@ -283,8 +320,10 @@ def float_time(t_rel):
     return BASE + t_rel / float(Q)      # exact: quarter seconds
 
 
-def run_impl(ctx, case):
-    """Fill a real cache, run the real cleanup, observe.  Returns dict(survived, dirs, walked, raised)."""
+def run_impl(ctx, case, interrupt_at=None):
+    """Fill a real cache, run the real cleanup, observe.  Returns dict(survived, dirs, walked, raised).
+    interrupt_at=k: run with a progress store, the first run dies (KeyboardInterrupt) when it starts to clean the
+    k-th level directory, a second run continues from the progress file (mapproxy-seed --continue)."""
     from mapproxy.cache.base import TileLocker
     from mapproxy.cache.tile import Tile, TileManager
     from mapproxy.seed.seeder import CleanupTask
@@ -292,17 +331,32 @@ def run_impl(ctx, case):
     from mapproxy.util.coverage import BBOXCoverage
     import mapproxy.grid as grid_mod
 
+    if case.get('tz') and not case.get('_tz_set'):
+        # part of the sqlite streams runs in another process time zone (stores and cleanup both use 'localtime')
+        old_tz = os.environ.get('TZ')
+        os.environ['TZ'] = case['tz']
+        time.tzset()
+        try:
+            return run_impl(ctx, dict(case, _tz_set=True), interrupt_at)
+        finally:
+            if old_tz is None:
+                os.environ.pop('TZ', None)
+            else:
+                os.environ['TZ'] = old_tz
+            time.tzset()
     b = case['backend']
     root = ctx.tmpdir('c12')
     cache_dir = os.path.join(root, 'cache')
     grid = make_grid(case['grid'])
     paths = fill(case, cache_dir, grid)
-    cache = make_cache(b, cache_dir, grid)
+    link = any(e.get('link') is not None for e in case['entries'])
+    cache = make_cache(b, cache_dir, grid, link)
+    vanish = set(p for e, p in zip(case['entries'], paths) if e.get('vanish'))
     tm = TileManager(grid, cache, [], 'png', locker=TileLocker(os.path.join(root, 'locks'), 10, 'c12'),
                      meta_size=tuple(case['meta']))
     tasks = []
     for t in case.get('tasks') or [case['task']]:
-        cov = BBOXCoverage(list(t['cov']), grid.srs)
+        cov = make_coverage(t, grid.srs)
         tasks.append(CleanupTask({'name': 'c12', 'cache_name': 'c', 'grid_name': 'g'}, tm, list(t['levels']),
                                  float_time(t['T']), t['all'], cov, complete_extent=t['complete']))
     walks = []            # one list of processed meta tiles per tilewalker_cleanup call
@@ -320,6 +374,45 @@ def run_impl(ctx, case):
     raised = None
     grid_mod.MetaGrid.tile_list = recording_tile_list
     cleanup_mod.tilewalker_cleanup = recording_walker
+    real_lstat = os.lstat
+
+    def vanishing_lstat(path, *a, **kw):
+        # another process removes the file between the directory listing and the lstat
+        if path in vanish:
+            vanish.discard(path)
+            os.unlink(path)
+        return real_lstat(path, *a, **kw)
+
+    if vanish:
+        os.lstat = vanishing_lstat
+    real_cleanup_directory = cleanup_mod.cleanup_directory
+    calls = [0]
+
+    def interrupted_cleanup_directory(*a, **kw):
+        calls[0] += 1
+        if calls[0] - 1 == interrupt_at:
+            raise KeyboardInterrupt()
+        return real_cleanup_directory(*a, **kw)
+
+    def run_cleanup():
+        if interrupt_at is None:
+            cleanup_mod.cleanup(tasks, concurrency=case.get('concurrency', 1), verbose=False)
+            return
+        from mapproxy.seed.util import ProgressStore, ProgressLog
+        pfile = os.path.join(root, 'progress')
+        cleanup_mod.cleanup_directory = interrupted_cleanup_directory
+        try:
+            store = ProgressStore(pfile, continue_seed=False)
+            cleanup_mod.cleanup(tasks, concurrency=1, verbose=False,
+                                progress_logger=ProgressLog(out=io.StringIO(), silent=True, verbose=False, progress_store=store))
+            raise RuntimeError('first run was not interrupted')
+        except KeyboardInterrupt:
+            pass
+        finally:
+            cleanup_mod.cleanup_directory = real_cleanup_directory
+        store = ProgressStore(pfile, continue_seed=True)
+        cleanup_mod.cleanup(tasks, concurrency=1, verbose=False,
+                            progress_logger=ProgressLog(out=io.StringIO(), silent=True, verbose=False, progress_store=store))
 
     def on_alarm(signum, frame):
         raise CleanupHang('cleanup() did not return within %d s' % WATCHDOG)
@@ -328,7 +421,7 @@ def run_impl(ctx, case):
     signal.alarm(WATCHDOG)
     try:
         with contextlib.redirect_stdout(io.StringIO()):
-            cleanup_mod.cleanup(tasks, concurrency=case.get('concurrency', 1), verbose=False)
+            run_cleanup()
     except CleanupHang:
         for p in multiprocessing.active_children():
             p.terminate()
@@ -338,6 +431,7 @@ def run_impl(ctx, case):
     finally:
         signal.alarm(0)
         signal.signal(signal.SIGALRM, old_handler)
+        os.lstat = real_lstat
         grid_mod.MetaGrid.tile_list = orig
         cleanup_mod.tilewalker_cleanup = orig_walker
     if hasattr(cache, 'cleanup'):
@@ -348,11 +442,13 @@ def run_impl(ctx, case):
     for l in range(len(spans)):
         d = tile_top(b, l)
         dirs.append(bool(d is not None and os.path.isdir(os.path.join(cache_dir, dname_str(d)))))
-    fresh = make_cache(b, cache_dir, grid)
+    fresh = make_cache(b, cache_dir, grid, link)
     survived = []
     for e, p in zip(case['entries'], paths):
         if e['kind'] == 'tile':
             there = bool(fresh.is_cached(Tile((e['x'], e['y'], e['l'])), dimensions=DIMS[e['dim']]))
+            if e.get('link') is not None:
+                there = os.path.lexists(p)     # the link itself; is_cached follows it
             if p is not None and there != os.path.lexists(p):
                 raise RuntimeError('cache API and directory listing disagree on %s' % p)
             survived.append(there)
@@ -378,8 +474,7 @@ def meta_intersects(case, x, y, l):
     x0, y0, mx, my = meta_main(case, x, y, l)
     s = spans[l]
     mb = (bbox[0] + x0 * s, bbox[1] + y0 * s, bbox[0] + (x0 + mx) * s, bbox[1] + (y0 + my) * s)
-    c = case['task']['cov']
-    return mb[0] < c[2] and mb[2] > c[0] and mb[1] < c[3] and mb[3] > c[1]
+    return any(mb[0] < c[2] and mb[2] > c[0] and mb[1] < c[3] and mb[3] > c[1] for c in task_boxes(case['task']))
 
 
 def oracle(ctx, case, obs):
@@ -451,11 +546,18 @@ def place_lit(e):
         return '(PInDir %s %s)' % (zlit(e['dim']), dname_lit(tuple(e['d'])))
     if k == 'beside':
         return '(PBeside %s)' % zlit(e['l'])
+    if k == 'colour':
+        return '(PInDir 0 (DOther %d))' % (900 + e['k'])
     return 'POutside'
 
 
 def entry_lit(e):
-    return '(mkEntry %s %s %s)' % (place_lit(e), zlit(e['t']), blit(bool(e.get('isdir'))))
+    from common import olit
+    return '(mkEntry %s %s %s %s)' % (place_lit(e), zlit(e['t']), blit(bool(e.get('isdir'))), olit(e.get('target')))
+
+
+def boxes_lit(t):
+    return llit(task_boxes(t), lambda c: '(%s, %s, %s, %s)' % tuple(zlit(v) for v in c))
 
 
 def case_lit(case, obs):
@@ -464,7 +566,7 @@ def case_lit(case, obs):
     pyr = '(mkPyr %s %s %s %s (%s, %s))' % (zlit(bbox[0]), zlit(bbox[1]), llit(spans),
                                           llit(sizes, lambda s: '(%d, %d)' % s), zlit(case['meta'][0]), zlit(case['meta'][1]))
     task = '(mkTask %s %s %s %s false)' % (llit(t['levels']), zlit(t['T']), blit(t['all']), blit(t['complete']))
-    cov = '(%s, %s, %s, %s)' % tuple(zlit(v) for v in t['cov'])
+    cov = boxes_lit(t)
     walked = llit(obs['walked'], lambda c: '(%s, %s, %s)' % (zlit(c[0]), zlit(c[1]), zlit(c[2])))
     surv = obs['survived'] if not obs['raised'] else [not s for s in obs['survived']] + [True]   # cannot match
     return '(%s, %s, %s, %s, %s, %s, %s, %s)' % (backend_lit(case['backend']), pyr, task, cov, walked,
@@ -479,9 +581,8 @@ def multi_lit(case, obs):
     ts = []
     for t in case['tasks']:
         w = walks.pop(0) if (strategy_of(case['backend'], t['complete']) == 'walk' and walks) else []
-        ts.append('(mkTask %s %s %s %s false, (%s, %s, %s, %s), %s)' % (
-            llit(t['levels']), zlit(t['T']), blit(t['all']), blit(t['complete']),
-            zlit(t['cov'][0]), zlit(t['cov'][1]), zlit(t['cov'][2]), zlit(t['cov'][3]),
+        ts.append('(mkTask %s %s %s %s false, %s, %s)' % (
+            llit(t['levels']), zlit(t['T']), blit(t['all']), blit(t['complete']), boxes_lit(t),
             llit(w, lambda c: '(%s, %s, %s)' % (zlit(c[0]), zlit(c[1]), zlit(c[2])))))
     surv = obs['survived'] if not obs['raised'] else [not x for x in obs['survived']] + [True]
     return '(%s, %s, [%s], %s, %s)' % (backend_lit(case['backend']), pyr, '; '.join(ts),
@@ -517,6 +618,13 @@ def gen_case(rng, backend=None, grid=None, force=None):
         levels = sorted(set(levels) | set(rng.sample([9, 10, 11], rng.choice([1, 2]))))
     phase = rng.randrange(Q)
     T = 40 * Q + phase
+    deltas = DELTAS
+    tz = None
+    if b in ('sqlite', 'mbtiles:ts') and rng.random() < 0.5:
+        # another process time zone; tiles a few hours around the remove time
+        tz = rng.choice(['EST5', 'XXX-2', 'XXX-5:30'])
+        T = 30 * 3600 * Q + phase
+        deltas = [h * 3600 * Q + d for h in (-7, -6, -5, -3, -2, -1, 0, 1, 2, 3, 5, 6, 7) for d in (-4, 0, 4)]
     remove_all = rng.random() < 0.2
     guarded = True
     if not supports_timestamp(b):
@@ -549,6 +657,17 @@ def gen_case(rng, backend=None, grid=None, force=None):
             if rng.random() < 0.2:
                 xs = [-2, nx + 2]
             cov = [bbox[0] + xs[0] * half, bbox[1] + ys[0] * half, bbox[0] + xs[1] * half, bbox[1] + ys[1] * half]
+    covs = None
+    if not complete and grid != 'deep' and rng.random() < 0.35:
+        # polygon coverage: union of two boxes whose edges lie in the middle of the finest tiles (never on an edge)
+        nx = (bbox[2] - bbox[0]) // half
+        ny = (bbox[3] - bbox[1]) // half
+        covs = []
+        for _ in range(2):
+            xs = sorted(rng.sample(range(1, nx, 2), 2)) if nx >= 4 else [1, nx - 1]
+            ys = sorted(rng.sample(range(1, ny, 2), 2)) if ny >= 4 else [1, ny - 1]
+            covs.append([bbox[0] + xs[0] * half, bbox[1] + ys[0] * half, bbox[0] + xs[1] * half, bbox[1] + ys[1] * half])
+        cov = [min(c[0] for c in covs), min(c[1] for c in covs), max(c[2] for c in covs), max(c[3] for c in covs)]
     if not complete:
         # keep the coverage inside the grid: where a meta tile overhangs the grid (grid size not a multiple of the
         # meta size) the walk reaches it through its ancestors only, so "intersects" is meant inside the grid
@@ -577,10 +696,34 @@ def gen_case(rng, backend=None, grid=None, force=None):
             if (dim, l, x, y) in seen:
                 continue
             seen.add((dim, l, x, y))
-            t = T + rng.choice(DELTAS)
+            t = T + rng.choice(deltas)
             if b in ('mbtiles:ts', 'sqlite'):
                 t = (t // Q) * Q            # rows carry whole seconds
             entries.append({'kind': 'tile', 'dim': dim, 'l': l, 'x': x, 'y': y, 't': t})
+    # single-colour tiles stored as symbolic links to a shared file whose time lies on either side of T
+    if b.startswith('file:') and rng.random() < 0.35:
+        ctimes = [T + rng.choice([-40, -8, -1, 0, 1, 8, 40]) for _ in COLOURS]
+        used = set()
+        for e in entries:
+            if rng.random() < 0.6:
+                e['link'] = rng.randrange(len(COLOURS))
+                e['target'] = ctimes[e['link']]
+                used.add(e['link'])
+        for k in sorted(used):
+            entries.append({'kind': 'colour', 'k': k, 't': ctimes[k]})
+    # a file that another process removes while the directory is being cleaned, with neighbours in its directory
+    if strat == 'dir' and not remove_all and rng.random() < 0.3:
+        l = rng.choice([l for l in tile_levels if min(sizes[l]) >= 3])
+        nx, ny = sizes[l]
+        if b == 'file:arcgis':
+            y0 = rng.randrange(min(ny, 40))
+            group = [(x, y0) for x in rng.sample(range(min(nx, 40)), min(4, nx))]
+        else:
+            x0 = rng.randrange(min(nx, 40))
+            group = [(x0, y) for y in rng.sample(range(min(ny, 40)), min(4, ny))]
+        entries = [e for e in entries if not (e['kind'] == 'tile' and e['dim'] == 0 and e['l'] == l and (e['x'], e['y']) in group)]
+        for i, (x, y) in enumerate(group):
+            entries.append({'kind': 'tile', 'dim': 0, 'l': l, 'x': x, 'y': y, 't': T - rng.choice([1, 5, 40]), 'vanish': i == 0})
     # not tiles
     n = 0
     for _ in range(rng.choice([0, 1, 2, 3])):
@@ -603,10 +746,17 @@ def gen_case(rng, backend=None, grid=None, force=None):
         for _ in range(rng.choice([0, 1, 2])):
             n += 1
             entries.append({'kind': 'beside', 'l': rng.choice(tile_levels), 'n': n, 't': T + rng.choice(DELTAS)})
+    used = set(e['link'] for e in entries if e.get('link') is not None)
+    entries = [e for e in entries if e['kind'] != 'colour' or e['k'] in used]
     rng.shuffle(entries)
-    return {'backend': b, 'grid': grid, 'meta': list(meta), 'guarded': guarded,
-            'task': {'levels': levels, 'T': T, 'all': remove_all, 'complete': complete, 'cov': cov},
+    task = {'levels': levels, 'T': T, 'all': remove_all, 'complete': complete, 'cov': cov}
+    if covs:
+        task['covs'] = covs
+    case = {'backend': b, 'grid': grid, 'meta': list(meta), 'guarded': guarded, 'task': task,
             'entries': entries, 'concurrency': rng.choice([1, 1, 2])}
+    if tz:
+        case['tz'] = tz
+    return case
 
 
 def finding_cases():
@@ -653,6 +803,34 @@ def fixed_cases():
             out.append({'backend': b, 'grid': 'g3', 'meta': [2, 2], 'guarded': True,
                         'task': {'levels': [2], 'T': T + phase, 'all': False, 'complete': complete, 'cov': [0, 0, 1024, 1024]},
                         'entries': ents, 'concurrency': 1})
+    # polygon coverage: a contained meta tile followed by a sibling that is only partly covered (levels below it
+    # must still be filtered by the coverage)
+    A, B = [192, 192, 576, 576], [64, 832, 192, 960]
+    for levels in ([3], [2, 3]):
+        out.append({'backend': 'file:tc', 'grid': 'g4w', 'meta': [1, 1], 'guarded': True, 'concurrency': 1,
+                    'task': {'levels': levels, 'T': T, 'all': False, 'complete': False, 'cov': [64, 192, 576, 960], 'covs': [A, B]},
+                    'entries': [{'kind': 'tile', 'dim': 0, 'l': 3, 'x': x, 'y': y, 't': T - 40}
+                                for x, y in ((0, 1), (1, 1), (0, 0), (2, 2), (3, 1), (0, 7), (1, 7), (4, 4), (5, 5))] +
+                               [{'kind': 'tile', 'dim': 0, 'l': 2, 'x': x, 'y': y, 't': T - 40} for x, y in ((0, 0), (1, 1), (2, 3))]})
+    # linked single-colour tiles: the age of a tile is the age of the link, not of the shared file
+    for b, complete in (('file:tc', True), ('file:tms', True), ('file:tc', False)):
+        out.append({'backend': b, 'grid': 'g3', 'meta': [2, 2], 'guarded': True, 'concurrency': 1,
+                    'task': {'levels': [2], 'T': T, 'all': False, 'complete': complete, 'cov': [0, 0, 1024, 1024]},
+                    'entries': [{'kind': 'tile', 'dim': 0, 'l': 2, 'x': 0, 'y': 0, 't': T - 40, 'link': 0, 'target': T + 40},
+                                {'kind': 'tile', 'dim': 0, 'l': 2, 'x': 1, 'y': 0, 't': T + 40, 'link': 1, 'target': T - 40},
+                                {'kind': 'tile', 'dim': 0, 'l': 2, 'x': 2, 'y': 0, 't': T - 40, 'link': 1, 'target': T - 40},
+                                {'kind': 'tile', 'dim': 0, 'l': 2, 'x': 3, 'y': 0, 't': T - 40},
+                                {'kind': 'tile', 'dim': 0, 'l': 1, 'x': 0, 'y': 0, 't': T - 40, 'link': 0, 'target': T + 40},
+                                {'kind': 'colour', 'k': 0, 't': T + 40}, {'kind': 'colour', 'k': 1, 't': T - 40}]})
+    # sqlite rows are written and compared in local time: other process time zones
+    H = 3600 * Q
+    for b in ('sqlite', 'mbtiles:ts'):
+        for tz in ('EST5', 'XXX-2'):
+            for complete in (True, False):
+                out.append({'backend': b, 'grid': 'g3', 'meta': [2, 2], 'guarded': True, 'concurrency': 1, 'tz': tz,
+                            'task': {'levels': [2], 'T': 30 * H, 'all': False, 'complete': complete, 'cov': [0, 0, 1024, 1024]},
+                            'entries': [{'kind': 'tile', 'dim': 0, 'l': 2, 'x': i, 'y': 1, 't': 30 * H + d * H}
+                                        for i, d in enumerate((-6, -1, 1, 3))]})
     return out
 
 
@@ -688,7 +866,7 @@ def conf_cases(ctx):
     return cases
 
 
-def run_conf(ctx, w, backends):
+def run_conf(ctx, w, backends, levels=None):
     """Build a real mapproxy + seed configuration with the caches in the given order, load the cleanup tasks."""
     import yaml
     from mapproxy.seed.config import load_seed_tasks_conf, SeedConfigurationError
@@ -721,6 +899,8 @@ def run_conf(ctx, w, backends):
           'globals': {'cache': {'base_dir': os.path.join(root, 'base'), 'lock_dir': os.path.join(root, 'locks'),
                                 'tile_lock_dir': os.path.join(root, 'tlocks')}}}
     cl = {'caches': names, 'grids': ['gg']}
+    if levels:
+        cl['levels'] = dict((k, v) for k, v in levels.items() if v is not None)
     stamp = os.path.join(root, 'stamp')
     if w == 'all':
         cl['remove_all'] = True
@@ -739,6 +919,7 @@ def run_conf(ctx, w, backends):
     sconf = load_seed_tasks_conf(sf, conf)
     obs = []
     order = []
+    tlevels = []
     init_time = None
     try:
         from mapproxy.seed.config import CleanupConfiguration
@@ -749,14 +930,27 @@ def run_conf(ctx, w, backends):
             ts = task.remove_timestamp
             rel = 'init' if ts == init_time else int(round((ts - BASE) * Q))
             obs.append((rel, bool(task.remove_all), task.md['cache_name']))
+            tlevels.append(list(task.levels))
             task.tile_manager.cleanup()
     except SeedConfigurationError:
         obs.append(None)
     shutil.rmtree(root, ignore_errors=True)
-    return {'order': order, 'obs': obs}
+    return {'order': order, 'obs': obs, 'levels': tlevels}
 
 
 # ------------------------------------------------------------------------------------------------ run
+
+class ResumeCtx(object):
+    """failures of the interrupted-and-continued stream get their own signatures"""
+
+    def __init__(self, ctx, sig):
+        self.ctx, self.sig = ctx, sig
+
+    def fail(self, signature, what, replay):
+        if not signature.startswith('F15-'):
+            signature = self.sig or (signature + ',continued')
+        self.ctx.fail(signature, 'after interruption and --continue: ' + what, replay)
+
 
 def run_cases(ctx, cases, tag, budget=None):
     import time
@@ -771,6 +965,12 @@ def run_cases(ctx, cases, tag, budget=None):
         except Exception as ex:  # the harness could not even set the case up
             ctx.problem('harness', 'case could not be run on the implementation: %r' % (ex,), {'case': case})
             continue
+        if any(e.get('vanish') for e in case['entries']):
+            # the vanished file is nobody's business; everything else must be as if it had never been there
+            keep = [i for i, e in enumerate(case['entries']) if not e.get('vanish')]
+            case = dict(case, entries=[case['entries'][i] for i in keep], vanished=[e for e in case['entries'] if e.get('vanish')])
+            obs = dict(obs, survived=[obs['survived'][i] for i in keep])
+            ctx.count('vanishing_file=True')
         t = case['task']
         tiles = [(e, s) for e, s in zip(case['entries'], obs['survived']) if e['kind'] == 'tile']
         nontrivial = (any(s for _, s in tiles) and any(not s for _, s in tiles)) or \
@@ -783,6 +983,9 @@ def run_cases(ctx, cases, tag, budget=None):
         ctx.count('remove_all=%s' % t['all'])
         ctx.count('grid=' + case['grid'])
         ctx.count('dimension_tiles=%s' % any(e.get('dim') for e in case['entries']))
+        ctx.count('linked_tiles=%s' % any(e.get('link') is not None for e in case['entries']))
+        ctx.count('coverage=%s' % ('complete' if t['complete'] else 'polygon' if t.get('covs') else 'bbox'))
+        ctx.count('tz=%s' % case.get('tz', 'UTC'))
         ctx.count('removed=%d' % min(sum(1 for s in obs['survived'] if not s), 5))
         oracle(ctx, case, obs)
         terms.append(case_lit(case, obs))
@@ -827,6 +1030,7 @@ def run(ctx):
             case['tasks'].append(dict(case['tasks'][0], all=not case['tasks'][0]['all'] or not supports_timestamp(case['backend'])))
         multi.append(case)
     for case in multi:
+        case['entries'] = [dict((k, v) for k, v in e.items() if k != 'vanish') for e in case['entries']]
         try:
             obs = run_impl(ctx, case)
         except Exception as ex:
@@ -847,8 +1051,67 @@ def run(ctx):
         terms.append(multi_lit(case, obs))
         descr.append({'case': case, 'implementation': obs})
     ctx.corr_check('cleanup_several_tasks', 'Cleanup',
-                   'backend * pyramid * list (task * bbox * list coord) * list entry * list bool', terms,
+                   'backend * pyramid * list (task * list bbox * list coord) * list entry * list bool', terms,
                    'check_multi %d' % Q, lambda i: descr[i], shard=60)
+    # 2c. directory strategy with a progress store: interrupted at a level boundary, then continued
+    terms, descr = [], []
+    rcases = []
+    for b, grid, levels in (('file:tc', 'g3', [0, 1, 2]), ('file:mp', 'g4w', [1, 3]), ('file:arcgis', 'g3', [0, 2]),
+                            ('file:tms', 'g3', [0, 1, 2]), ('file:tc', 'deep', [2, 9, 10, 11]), ('file:tms', 'deep', [3, 9, 10, 11])):
+        for k in range(len(levels)):
+            c = gen_case(rng, backend=b, grid=grid, force={'complete': True, 'all': False})
+            c['task']['levels'] = levels
+            rcases.append((c, k))
+    # regression witness (repaired tms-resume-order): "10" must not sort before "2"
+    rcases.append(({'backend': 'file:tms', 'grid': 'deep', 'meta': [2, 2], 'guarded': True, 'concurrency': 1,
+                    'task': {'levels': [2, 10], 'T': 160, 'all': False, 'complete': True, 'cov': [0, 0, 262144, 262144]},
+                    'entries': [{'kind': 'tile', 'dim': 0, 'l': 2, 'x': 1, 'y': 1, 't': 120},
+                                {'kind': 'tile', 'dim': 0, 'l': 10, 'x': 5, 'y': 7, 't': 120},
+                                {'kind': 'tile', 'dim': 0, 'l': 10, 'x': 5, 'y': 8, 't': 200}]}, 0))
+    for _ in range(ctx.n(10, 120)):
+        c = gen_case(rng, backend=rng.choice(['file:tc', 'file:mp', 'file:arcgis', 'file:tms']), force={'complete': True})
+        rcases.append((c, rng.randrange(len(c['task']['levels']))))
+    for case, k in rcases:
+        case['entries'] = [dict((kk, v) for kk, v in e.items() if kk != 'vanish') for e in case['entries']]
+        case['resume_at'] = k
+        try:
+            obs = run_impl(ctx, case, interrupt_at=k)
+        except Exception as ex:
+            ctx.problem('harness', 'resume case could not be run on the implementation: %r' % (ex,), {'case': case})
+            continue
+        ctx.case(json.dumps(case, sort_keys=True), True, None)
+        ctx.count('resumed_after_level_index=%d' % min(k, 3))
+        # a continued cleanup has to remove what an uninterrupted one removes
+        oracle(ResumeCtx(ctx, None), case, obs)
+        t = case['task']
+        surv = obs['survived'] if not obs['raised'] else [not x for x in obs['survived']] + [True]
+        terms.append('(%s, (mkTask %s %s %s true false), %d%%nat, %s, %s)' % (
+            backend_lit(case['backend']), llit(t['levels']), zlit(t['T']), blit(t['all']), k,
+            llit(case['entries'], entry_lit), llit(surv, blit)))
+        descr.append({'case': case, 'interrupted_before_level_index': k, 'implementation': obs})
+    ctx.corr_check('cleanup_resumed', 'Cleanup', 'backend * task * nat * list entry * list bool', terms,
+                   'check_resume', lambda i: descr[i], shard=60)
+    # 2d. levels of a cleanup task from the configuration (from/to ranges)
+    terms, descr = [], []
+    for frm in (None, 0, 1, 2):
+        for to in (None, 0, 1, 2, 5):
+            if frm is None and to is None:
+                continue
+            try:
+                r = run_conf(ctx, 'all', ['file:tc'], levels={'from': frm, 'to': to})
+            except Exception as ex:
+                ctx.problem('harness', 'levels case could not be loaded: %r' % (ex,), {'from': frm, 'to': to})
+                continue
+            got = r['levels'][0] if r['levels'] else None
+            want = list(range(frm or 0, min(2, 999 if to is None else to) + 1))
+            ctx.case(('levels', frm, to), True, {'from': frm, 'to': to, 'levels': got})
+            if got != want:
+                ctx.fail('conf-levels-range', 'cleanup levels {from: %r, to: %r} on a grid with 3 levels selects %r, expected %r' % (
+                    frm, to, got, want), {'from': frm, 'to': to, 'levels': got})
+            from common import olit
+            terms.append('(%s, %s, 3, %s)' % (olit(frm), olit(to), llit(got if got is not None else [-1])))
+            descr.append({'from': frm, 'to': to, 'levels': got})
+    ctx.corr_check('conf_levels', 'Cleanup', 'option Z * option Z * Z * list Z', terms, 'check_levels', lambda i: descr[i])
     # 3. configuration guard
     terms, descr = [], []
     for w, bs in conf_cases(ctx):
